@@ -165,6 +165,21 @@ theorem mult_spec (a b : V4) (i : Fin 4) :
     ((mult_avx a b).get i).toNat % P = ((a.get i).toNat * (b.get i).toNat) % P := by
   rw [mult_get, reduce128_spec, mul128_spec]
 
+/-- the two words of the exact product are determined by the product: exchanging the operands changes no bit -/
+theorem mul128_comm (x y : BitVec 64) : mul128h x y = mul128h y x ∧ mul128l x y = mul128l y x := by
+  have s1 := mul128_spec x y
+  have s2 := mul128_spec y x
+  rw [Nat.mul_comm y.toNat x.toNat] at s2
+  have a1 := (mul128l x y).isLt
+  have a2 := (mul128l y x).isLt
+  generalize x.toNat * y.toNat = p at *
+  constructor <;> apply BitVec.eq_of_toNat_eq <;> omega
+
+/-- `mult_avx(c, a, b)` and `mult_avx(c, b, a)` return the same register (bit for bit, not only mod p) -/
+theorem mult_avx_comm (a b : V4) : mult_avx a b = mult_avx b a := by
+  apply V4.ext_get; intro i
+  rw [mult_get, mult_get, (mul128_comm (a.get i) (b.get i)).1, (mul128_comm (a.get i) (b.get i)).2]
+
 /-! #### mult_avx_72 / reduce_avx_96_64 / mult_avx_8 -/
 
 def mul72h (x y : BitVec 64) : BitVec 64 := ((mult_avx_72 (V4.splat x) (V4.splat y)).1).get 0
